@@ -19,6 +19,10 @@ GNext == /\ Len(hist) < MaxLen
 GSpec == GInit /\ [][GNext]_<<vars, hist>>
 AllNext == Next /\ hist' = Append(hist, <<last'.op, last'.arg, last'.flag>>)
 AllSpec == GInit /\ [][AllNext]_<<vars, hist>>
+\* the same restricted to client operations: reaches every control state (server events change nothing but `last`)
+\* at a fraction of the cost; used for the witnesses while ClientRefusal!Spec is model-checked separately
+OpsNext == ClientOp /\ hist' = Append(hist, <<last'.op, last'.arg, last'.flag>>)
+OpsSpec == GInit /\ [][OpsNext]_<<vars, hist>>
 ViewAll == vars
 Control == [authed |-> authed, chan |-> chan, x11H |-> x11H, agentH |-> agentH, tcpH |-> tcpH,
             x11Req |-> x11Req, agentReq |-> agentReq, fwd |-> fwd, hadFwd |-> hadFwd, refusedLast |-> refusedLast, subsysReg |-> subsysReg]
